@@ -88,6 +88,54 @@ class Resolver:
         return self._answer(qname, rdtype, a, kw)
 
 
+def run_threads(case) -> dict:
+    """["threads", record indices, [domains...], seed, policy]: caller threads look up different domains at the same time (sync API);
+    simworld.threads decides every pre-emption.  Each lookup must ask for ITS domain's SRV name and return a best record."""
+    import random as _r
+
+    import dpapi_ng._dns as ddns
+    from checks import plan as P
+    from simworld import threads as simthreads
+
+    _, idxs, domains, seed, policy = case
+    records = [RECORD_TYPES[i] for i in idxs]
+    world = W.World(seed)
+    res = Resolver(world, records)
+    asked: t.Dict[int, list] = {}
+
+    def job(k, dom):
+        def run():
+            n0 = len(res.calls)
+            out = ddns.lookup_dc(dom)
+            asked[k] = [c for c in res.calls[n0:]]
+            return out
+
+        return run
+
+    with world.installed(resolver=res, patch_entropy=False):
+        tsim = simthreads.ThreadSim(_r.Random(seed ^ 0xC20), P.SRC_PREFIX(), policy)
+        try:
+            results = tsim.run([job(k, d) for k, d in enumerate(domains)])
+        except simthreads.Wedged as e:
+            raise common.HarnessError(str(e))
+    viol = None
+    best_prio = min(r[0] for r in records)
+    best_weight = max(r[1] for r in records if r[0] == best_prio)
+    all_calls = [c[0] for c in res.calls]
+    for k, (dom, (val, exc)) in enumerate(zip(domains, results)):
+        want_q = f"_ldap._tcp.dc._msdcs.{dom}" if dom else "_ldap._tcp.dc._msdcs"
+        if exc is not None:
+            viol = common.violation("C20", "lookup-failed", "threads", type(exc).__name__, "", "", f"thread {k} looking up {dom!r} while other threads look up {domains}: {exc!r}")
+            break
+        if (val.priority, val.weight) != (best_prio, best_weight):
+            viol = common.violation("C20", "selection", "threads", "", "", "", f"thread {k} ({dom!r}) got priority {val.priority} weight {val.weight}, best is {best_prio}/{best_weight}")
+            break
+    if viol is None and sorted(all_calls) != sorted((f"_ldap._tcp.dc._msdcs.{d}" if d else "_ldap._tcp.dc._msdcs") for d in domains):
+        viol = common.violation("C20", "query", "threads", "", "", "", f"threads looked up {domains} at the same time but the resolver was asked {all_calls}; {len(tsim.switches)} pre-emptions")
+    return {"viol": viol, "digest": world.digest() + str(all_calls), "key": common.key_hash(case), "sched_key": common.key_hash(tsim.switches) if tsim.switches else None,
+            "fired": {"dns": world.stats.get("dns", 0), "thread_preemptions": len(tsim.switches)}, "probes": {"thread_lookups": 1, "thread_overlap": tsim.overlap}, "vtime_ns": 0, "_script": tsim.script()}
+
+
 def run_burst(case) -> dict:
     """["burst", record indices, domain, n1, n2]: n1 async lookups in flight at once on one event loop, then n2 more on a NEW event
     loop of the same process (a second asyncio.run); every one of them must return the best record."""
@@ -169,6 +217,8 @@ def run(case) -> dict:
 
     if case[0] == "burst":
         return run_burst(case)
+    if case[0] == "threads":
+        return run_threads(case)
     if case[0] == "unreach":
         return run_unreachable(case)
 
@@ -264,12 +314,12 @@ class C20(common.Check):
             "length 5 = 1.9 M exhaustively in thorough, sampled in quick), each through lookup_dc and async_lookup_dc; answers of 2..3 records in which "
             "several records name the same host (all host assignments); resolver faults (the first 1..2 queries time out or return NXDOMAIN and "
             "the caller repeats the lookup in the same process); the same name looked up twice while the answer set changed in between; bursts of 2..9 async lookups in flight at once on one "
-            "event loop and then again on a second event loop of the same process; a fault of the asynchronous resolver backend only (NotImplementedError / no async library) before the caller's retry; a lookup after the lookup of another name (an absolute one with trailing dot, none, another domain); a lookup after a call whose connection to the selected DC was refused; target host names in lower case, mixed case and with IDNA A-labels (xn--) must come back as the record spells them; records are real dnspython Answer objects whose TTL runs out between two lookups; the client host's own DNS suffix differs from the AD domain. Non-trivial = more than "
+            "event loop and then again on a second event loop of the same process; 2..3 caller threads looking up different domains (single-label ones included) at the same time, pre-empted at PRNG-chosen line events; a fault of the asynchronous resolver backend only (NotImplementedError / no async library) before the caller's retry; a lookup after the lookup of another name (an absolute one with trailing dot, none, another domain); a lookup after a call whose connection to the selected DC was refused; target host names in lower case, mixed case and with IDNA A-labels (xn--) must come back as the record spells them; records are real dnspython Answer objects whose TTL runs out between two lookups; the client host's own DNS suffix differs from the AD domain. Non-trivial = more than "
             "one record or a trailing-dot target; distinct = distinct (sequence, domain).")
     components = {"selection code": "real (dpapi_ng._dns lookup_dc / async_lookup_dc / _get_highest_answer)", "resolver": "stub node returning real dnspython SRV rdata",
                   "async runtime": "simulated loop"}
     assumptions = ["no DNS wire format is simulated: dnspython is a dependency, not the system under test", "ties between equal (priority, weight) records are not judged beyond sync == async"]
-    required_fired = ("trailing_dot", "relative_target", "ties", "dns_reorder", "repeated_target", "after_resolver_fault", "dns_fault", "after_earlier_lookup", "async_bursts", "after_connection_failure", "idna_a_label_target", "mixed_case_target", "after_lookup_of_another_name", "async_backend_fault")
+    required_fired = ("trailing_dot", "relative_target", "ties", "dns_reorder", "repeated_target", "after_resolver_fault", "dns_fault", "after_earlier_lookup", "async_bursts", "after_connection_failure", "idna_a_label_target", "mixed_case_target", "after_lookup_of_another_name", "async_backend_fault", "thread_lookups", "thread_overlap")
 
     def exhaustive(self, tier):
         return True
@@ -283,7 +333,7 @@ class C20(common.Check):
         for ln in (1, 2, 3, 4) + ((5,) if tier == "thorough" else ()):
             for seq in itertools.product(range(n), repeat=ln):
                 k += 1
-                out.append([list(seq), ("corp.example", None, "a.b.c.d.test", "")[k % 4]])  # "" = the domain of a blob whose key identifier has none
+                out.append([list(seq), ("corp.example", None, "a.b.c.d.test", "", "corp", "LOCAL")[k % 6]])  # "" = the domain of a blob whose key identifier has none
         # answers in which several records name the same host (multi-homed DC listed twice): all host assignments for length <= 3
         for ln in (2, 3):
             for seq in itertools.product(range(0, n, 2), repeat=ln):
@@ -313,6 +363,13 @@ class C20(common.Check):
         # bursts of concurrent async lookups on one event loop, then again on a second event loop of the same process
         for _ in range(200 if tier == "quick" else 5000):
             out.append(["burst", [rng0.randrange(n) for _ in range(rng0.randint(1, 4))], rng0.choice(("corp.example", None)), rng0.randint(2, 9), rng0.randint(2, 9)])
+        # caller threads looking up different domains at the same time
+        from checks import threadpure
+
+        for k_ in range(600 if tier == "quick" else 20000):
+            doms = rng0.sample(["a.test", "b.test", "corp.example", None, "c.d.e.test", "corp", "LOCAL"], 2 + k_ % 2)
+            pol = {"mode": "marks", "q": (0.3, 0.6, 0.9, 1.0)[k_ % 4], "p": (0.0, 0.05)[(k_ // 4) % 2]} if k_ % 3 else threadpure.policy_for(k_ // 3, seams=False)
+            out.append(["threads", [rng0.randrange(n) for _ in range(rng0.randint(1, 3))], doms, rng0.getrandbits(30), pol])
         if tier == "quick":
             rng = prng.stream(seed, "C20")
             for _ in range(20000):
@@ -323,6 +380,11 @@ class C20(common.Check):
         return run(case)
 
     def shrink(self, case):
+        if case[0] == "threads":
+            from checks import threadpure
+
+            yield from threadpure.shrinks(case, 4, None, run_threads)
+            return
         if case[0] in ("burst", "unreach"):
             return
         idxs, dom = case[:2]
@@ -336,6 +398,8 @@ class C20(common.Check):
             yield [idxs, ""]
 
     def sample_repr(self, case, res):
+        if case[0] == "threads":
+            return dict(zip(("kind", "records", "domains_looked_up_by_the_threads", "seed", "thread_policy"), case))
         if case[0] == "burst":
             return dict(zip(("kind", "records", "domain", "concurrent_lookups_loop_1", "concurrent_lookups_loop_2"), case))
         if case[0] == "unreach":
